@@ -81,6 +81,109 @@ def cases(thorough):
                 for u1 in allunits:
                     for vset in (0, 1):
                         yield {"block": "U", "op": op, "d1": d1, "s1": s1, "u1": u1, "vset": vset}
+    # block P: a ** e for every kind of exponent object: the unit follows the value of the exponent; exponents that differ
+    # between elements need a pure-number base; an exponent with a dimension is refused
+    for ek in POW_EXP:
+        for d1 in ("f8", "f4", "i8"):
+            for s1 in ("0d", "3"):
+                for u1 in allunits:
+                    yield {"block": "P", "ek": ek, "d1": d1, "s1": s1, "u1": u1}
+    # the exponent / factor given as a numpy scalar or 0-d array of every common type instead of a Python number
+    for op in ("pow2", "pow3", "pow0.5", "pow-1", "kmul", "kmul_f", "kdiv"):
+        for kt in ("i8", "i4", "f4", "f8", "nd0", "nd0i"):
+            for d1 in ("f8", "f4", "i8"):
+                for s1 in ("0d", "3"):
+                    for u1 in one_per_family:
+                        k = {"kmul": 3, "kdiv": 3, "kmul_f": 2.5}.get(op, None)
+                        k = float(op[3:]) if k is None else k
+                        if kt in ("i8", "i4", "u1", "nd0i") and k != int(k):
+                            continue
+                        yield {"block": "U", "op": op, "d1": d1, "s1": s1, "u1": u1, "vset": 0, "ktype": kt}
+
+
+POW_EXP = ["A0d:2", "A0d:0.5", "A3eq:2", "A3var", "Apercent:200", "Q:2", "Q:3percent", "nd3eq:2", "nd3var", "list:2", "A:s", "Q:K", "A0d:-1"]
+
+
+def run_power(acc, idx, c):
+    import osyris
+
+    A_ = osyris.Array
+    dt1 = _arr.DTYPES[c["d1"]]
+    v1 = _arr.values_for(_arr.SHAPES[c["s1"]], dt1, 0, 0)
+    a = A_(v1, unit=c["u1"])
+    P, dP, tP = _arr.phys(a)
+    ek = c["ek"]
+    n = 3
+    # (exponent object, physical exponent values, must be refused)
+    if ek.startswith("A0d:"):
+        k = float(ek[4:])
+        e, E, bad = A_(np.array(k)), np.float64(k), False
+    elif ek == "A3eq:2":
+        e, E, bad = A_(np.full(n, 2.0)), np.full(n, 2.0), False
+    elif ek == "A3var":
+        E = np.array([1.0, 2.0, 3.0])
+        e, bad = A_(E.copy()), False
+    elif ek == "Apercent:200":
+        e, E, bad = A_(np.array(200.0), unit="percent"), np.float64(2.0), False
+    elif ek == "Q:2":
+        e, E, bad = 2.0 * osyris.units("dimensionless"), np.float64(2.0), False
+    elif ek == "Q:3percent":
+        e, E, bad = 300.0 * osyris.units("percent"), np.float64(3.0), False
+    elif ek == "nd3eq:2":
+        e, E, bad = np.full(n, 2.0), np.full(n, 2.0), False
+    elif ek == "nd3var":
+        E = np.array([1.0, 2.0, 3.0])
+        e, bad = E.copy(), False
+    elif ek == "list:2":
+        e, E, bad = [2.0, 2.0, 2.0], np.full(n, 2.0), False
+    elif ek == "A:s":
+        e, E, bad = A_(np.array(2.0), unit="s"), None, True
+    else:
+        e, E, bad = 2.0 * osyris.units("K"), None, True
+    if E is not None and np.ndim(E) and c["s1"] == "0d":
+        pass  # a 0-d base broadcasts against 3 exponents
+    sa, se = _arr.snapshot(a), _arr.snapshot(e) if not isinstance(e, list) else None
+    varied = E is not None and np.ndim(E) > 0 and len(set(np.ravel(E).tolist())) > 1
+    pure = tuple(dP) == tuple(M2.dims_of())
+    try:
+        with np.errstate(all="ignore"):
+            r = a ** e
+        raised = None
+    except Exception as ex:
+        r, raised = None, type(ex).__name__
+    if _arr.snapshot(a) != sa or (se is not None and _arr.snapshot(e) != se):
+        acc.violation(f"C02:operand-modified:pow:{ek}", idx, c, {})
+    if bad or (varied and not pure):
+        if raised is None:
+            acc.violation("C02:power-with-invalid-exponent-not-refused:" + ("exponent-has-a-dimension" if bad else "varying-exponents-on-dimensional-base"), idx, c,
+                          {"result_unit": str(getattr(r, "unit", None))})
+            return "accepted-invalid", True
+        return "raises", True
+    if raised:
+        if c["d1"] == "i8" and np.any(np.asarray(E) < 0):
+            return "raises", True  # numpy refuses integer ** negative
+        # refusing is allowed by the statement; it is not counted as a violation, but reported in the outcome table
+        return "refused:" + raised, True
+    try:
+        got, gd, gt = _arr.phys(r)
+    except M2.UnknownUnit as ex:
+        acc.violation(f"C02:malformed-unit:pow:{ek.split(':')[0]}", idx, c, {"unit": str(ex)[:120]})
+        return "wrong-unit", True
+    with np.errstate(all="ignore"):
+        want = np.asarray(P, dtype=float) ** E
+    if varied:
+        wd = tuple(M2.dims_of())
+    else:
+        kq = Fraction(float(np.ravel(E)[0])).limit_denominator(12)
+        wd = tuple(q * kq for q in dP)
+    if tuple(gd) != tuple(wd):
+        acc.violation(f"C02:wrong-unit:pow:{ek.split(':')[0]}", idx, c, {"unit": str(r.unit), "expected_dims": [str(q) for q in wd]})
+        return "wrong-unit", True
+    tol = _arr.eps_for(dt1) + (tP + gt) * 3
+    if not _arr.close(got, want, tol):
+        acc.violation(f"C02:wrong-value:pow:{ek.split(':')[0]}", idx, c, {"got": np.ravel(got)[:4].tolist(), "expected": np.ravel(want)[:4].tolist(), "unit": str(r.unit)})
+        return "wrong-value", True
+    return "ok", True
 
 
 OTHER_UNIT = {"length": "km", "mass": "kg", "time": "yr", "velocity": "km/s", "density": "kg/m**3", "energy": "J", "dimensionless": "dimensionless",
@@ -235,6 +338,8 @@ def run_case(acc, idx, c):
         return out, True
     if c["block"] == "SEQ":
         return run_sequence(acc, idx, c), True
+    if c["block"] == "P":
+        return run_power(acc, idx, c)
     # unary block
     dt1 = _arr.DTYPES[c["d1"]]
     v1 = _arr.values_for(_arr.SHAPES[c["s1"]], dt1, c["vset"], 0)
@@ -242,20 +347,28 @@ def run_case(acc, idx, c):
     A, dA, tA = _arr.phys(a)
     sa = _arr.snapshot(a)
     op = c["op"]
+    kt = c.get("ktype", "py")
+
+    def num(v):
+        # the number v as the requested kind of scalar
+        v = int(v) if v == int(v) else v
+        return {"py": lambda: v, "i8": lambda: np.int64(v), "i4": lambda: np.int32(v), "u1": lambda: np.uint8(v), "f4": lambda: np.float32(v),
+                "f8": lambda: np.float64(v), "nd0": lambda: np.array(float(v)), "nd0i": lambda: np.array(int(v))}[kt]()
+
     with np.errstate(all="ignore"):
         if op == "neg":
             f, want, wd, k = (lambda: -a), -A, dA, 1
         elif op.startswith("pow"):
             k = float(op[3:])
-            kk = int(k) if k == int(k) else k
+            kk = num(k)
             f = lambda: a**kk  # noqa: E731
             want, wd = A.astype(float) ** k, tuple(q * Fraction(k).limit_denominator(12) for q in dA)
         elif op == "kmul":
-            f, want, wd, k = (lambda: 3 * a), 3 * A, dA, 1
+            f, want, wd, k = (lambda: num(3) * a), 3 * A, dA, 1
         elif op == "kmul_f":
-            f, want, wd, k = (lambda: 2.5 * a), 2.5 * A, dA, 1
+            f, want, wd, k = (lambda: num(2.5) * a), 2.5 * A, dA, 1
         else:
-            f, want, wd, k = (lambda: 3 / a), 3 / A.astype(float), tuple(-q for q in dA), 1
+            f, want, wd, k = (lambda: num(3) / a), 3 / A.astype(float), tuple(-q for q in dA), 1
     try:
         with np.errstate(all="ignore"):
             r = f()
@@ -265,7 +378,7 @@ def run_case(acc, idx, c):
     if _arr.snapshot(a) != sa:
         acc.violation(f"C02:operand-modified:{op}", idx, c, {})
     if raised:
-        if op == "pow-1" and c["d1"] in ("i8", "i4"):
+        if op == "pow-1" and c["d1"] in ("i8", "i4") and kt in ("py", "i8", "i4", "nd0i"):
             return "raises", True  # numpy refuses integer ** negative integer
         acc.violation(f"C02:raised-for-valid-operand:{op}:{raised}", idx, c, {})
         return "raises-unexpected", True
